@@ -116,6 +116,7 @@ def serialisations(r, native):
             'indent1': json.dumps(doc, indent=1),
             'indent2': json.dumps(doc, indent=2),
             'indent-tab': json.dumps(doc, indent='\t'),
+            'indent2-crlf': json.dumps(doc, indent=2).replace('\n', '\r\n'),
             'spaced-wide': json.dumps(doc, separators=(' ,  ', ' :  ')),
             'indent4-unicode': json.dumps(doc, indent=4,
                                           ensure_ascii=False)}
@@ -248,7 +249,7 @@ def run_case(ctx, index):
                         res = biom.parse_table(tx.splitlines(True), ids=set(sub),
                                                axis=axis)
                     else:
-                        with open(jsp, 'w', encoding='utf-8') as f:
+                        with open(jsp, 'w', encoding='utf-8', newline='') as f:
                             f.write(tx)
                         with open(jsp, encoding='utf-8') as f:
                             res = biom.parse_table(f, ids=list(sub), axis=axis)
@@ -286,7 +287,7 @@ def run_case(ctx, index):
                                           for i in sub) + '\n')
                     outs = {}
                     for nm, tx in sers.items():
-                        with open(jsp, 'w', encoding='utf-8') as f:
+                        with open(jsp, 'w', encoding='utf-8', newline='') as f:
                             f.write(tx)
                         if os.path.exists(outp):
                             os.remove(outp)
@@ -384,7 +385,7 @@ def run_case(ctx, index):
             if variant == 'cli-hdf5':
                 args = ['subset-table', '-i', h5p]
             else:
-                with open(jsp, 'w', encoding='utf-8') as f:
+                with open(jsp, 'w', encoding='utf-8', newline='') as f:
                     f.write(sers[r.choice(sorted(sers))])
                 args = ['subset-table', '-j', jsp]
             rr = _cli(args + ['-a', axis, '-s', idp, '-o', outp])
